@@ -258,7 +258,7 @@ class iindex(dict):
                 distinct_values = [coords[0] for coords in self] + [self.common]
                 vtype = type(distinct_values[0])
                 if vtype is int:
-                    dtype = fit_dtype(max(distinct_values))
+                    dtype = fit_dtype(max(distinct_values), min(distinct_values))
                 elif vtype is str:
                     dtype = "<U%d" % max(len(v) for v in distinct_values)
                 else:
@@ -276,7 +276,7 @@ class iindex(dict):
                 distinct_values = list(mapping.values())
                 vtype = type(distinct_values[0])
                 if vtype is int:
-                    dtype = fit_dtype(max(distinct_values))
+                    dtype = fit_dtype(max(distinct_values), min(distinct_values))
                 elif vtype is str:
                     dtype = "<U%d" % max(len(v) for v in distinct_values)
                 else:
